@@ -28,7 +28,14 @@ import (
 var run *hlib.Run
 var stressBlocks int // commit blocks the coordinator saw in the concurrent stream
 
-const group = "g"
+// every case uses its own consumer group, so a request that reaches the coordinator late (after its case ended)
+// is recognised and not attributed to the running case
+var caseNo int
+
+func nextGroup() string {
+	caseNo++
+	return fmt.Sprintf("g%d", caseNo)
+}
 const missing = 99999 // verdict "no entry in the response"
 
 // ---------------------------------------------------------------------------------------------
@@ -62,6 +69,7 @@ type attT struct {
 }
 
 type caseT struct {
+	real   bool // the real sarama client (NewClient against the mock broker) instead of the scripted one
 	auto   bool
 	rmax   int
 	ret    bool
@@ -152,7 +160,11 @@ func (c *caseT) String() string {
 			st[i] = fmt.Sprintf("%d:%d", s.o, s.m)
 		}
 	}
-	s := fmt.Sprintf("seq %s %d %s %d %s", b01(c.auto), c.rmax, b01(c.ret), c.ini, strings.Join(st, ","))
+	hd := "seq"
+	if c.real {
+		hd = "seqr"
+	}
+	s := fmt.Sprintf("%s %s %d %s %d %s", hd, b01(c.auto), c.rmax, b01(c.ret), c.ini, strings.Join(st, ","))
 	for _, o := range c.ops {
 		s += " ; " + o.String()
 	}
@@ -160,7 +172,7 @@ func (c *caseT) String() string {
 }
 
 func parseRep(t string) (repT, bool) {
-	if t == "e0" || t == "e1" {
+	if t == "e0" || t == "e1" || t == "e2" {
 		return repT{kind: t}, true
 	}
 	if !strings.HasPrefix(t, "r") {
@@ -209,10 +221,10 @@ func parseAtts(t []string) ([]attT, bool) {
 func parseCase(line string) (*caseT, bool) {
 	segs := strings.Split(line, ";")
 	h := strings.Fields(segs[0])
-	if len(h) != 6 || h[0] != "seq" {
+	if len(h) != 6 || (h[0] != "seq" && h[0] != "seqr") {
 		return nil, false
 	}
-	c := &caseT{auto: h[1] == "1", rmax: hlib.Atoi(h[2]), ret: h[3] == "1"}
+	c := &caseT{real: h[0] == "seqr", auto: h[1] == "1", rmax: hlib.Atoi(h[2]), ret: h[3] == "1"}
 	c.ini, _ = strconv.ParseInt(h[4], 10, 64)
 	for _, s := range strings.Split(h[5], ",") {
 		if s == "n" {
@@ -317,6 +329,7 @@ type shadowT struct {
 }
 
 type env struct {
+	group  string
 	mu     sync.Mutex
 	c      *caseT
 	line   string
@@ -346,10 +359,14 @@ var (
 	mbUse int
 )
 
+// fakeClient scripts the coordinator lookup; like the real client it keeps ONE Broker object per coordinator
+// (same id and address => same object) and hands it back after Open (a no-op unless somebody closed it).
 type fakeClient struct {
 	sarama.Client
-	e       *env
-	brokers []*sarama.Broker
+	e         *env
+	brokers   []*sarama.Broker
+	coord     *sarama.Broker
+	coordAddr string
 }
 
 func (c *fakeClient) Config() *sarama.Config { return c.e.conf }
@@ -391,10 +408,13 @@ func (c *fakeClient) Coordinator(g string) (*sarama.Broker, error) {
 		e.texts = append(e.texts, "lkfail")
 		return nil, errLookup
 	}
-	b := sarama.NewBroker(mb.Addr())
-	_ = b.Open(e.conf)
-	c.brokers = append(c.brokers, b)
-	return b, nil
+	if c.coord == nil || c.coordAddr != mb.Addr() {
+		c.coord = sarama.NewBroker(mb.Addr())
+		c.coordAddr = mb.Addr()
+		c.brokers = append(c.brokers, c.coord)
+	}
+	_ = c.coord.Open(e.conf)
+	return c.coord, nil
 }
 
 func fetchedOf(b *blockT) pair {
@@ -477,6 +497,8 @@ func (e *env) coordinatorApply(req *sarama.OffsetCommitRequest, blocks map[int]b
 		return nil
 	case "e0":
 		return nil
+	case "e2": // the request is swallowed: the client's read times out, the connection stays up on the broker side
+		return sarama.VerifC06NoAnswer
 	}
 	resp := &sarama.OffsetCommitResponse{Version: req.Version}
 	for _, i := range idx {
@@ -505,6 +527,10 @@ func onCommit(req *sarama.OffsetCommitRequest) *sarama.OffsetCommitResponse {
 	}
 	e.mu.Lock()
 	defer e.mu.Unlock()
+	if req.ConsumerGroup != e.group {
+		run.Count("stale-request-of-an-earlier-case-ignored")
+		return &sarama.OffsetCommitResponse{Version: req.Version}
+	}
 	if e.stress {
 		resp := &sarama.OffsetCommitResponse{Version: req.Version}
 		for _, b := range sarama.VerifC06Blocks(req) {
@@ -595,7 +621,7 @@ func ensureBroker() {
 			mb.Close()
 		}
 		mb = sarama.NewMockBroker(nullReporter{}, 1)
-		sarama.VerifC06Install(mb, onCommit, onFetch)
+		sarama.VerifC06Install(mb, nullReporter{}, onCommit, onFetch)
 		mbUse = 0
 	}
 	mbUse++
@@ -881,7 +907,7 @@ func (e *env) doOp(o opT) (string, bool) {
 		}
 		resp := e.coordinatorApply(e.req, blocks, o.rep)
 		e.mu.Unlock()
-		if resp != nil {
+		if resp != nil && resp != sarama.VerifC06NoAnswer {
 			sarama.VerifC06HandleResponse(e.om, e.req, resp)
 		} else {
 			sarama.VerifC06RequestFailed(e.om, errIO)
@@ -923,7 +949,7 @@ func runCase(c *caseT) string {
 	conf.Metadata.Retry.Max = 0
 	conf.ChannelBufferSize = 1024
 	n := len(c.stores)
-	e := &env{c: c, line: line, conf: conf, single: -1, poms: make([]sarama.PartitionOffsetManager, n),
+	e := &env{group: nextGroup(), c: c, line: line, conf: conf, single: -1, poms: make([]sarama.PartitionOffsetManager, n),
 		store: make([]*blockT, n), sh: make([]shadowT, n)}
 	for i, s := range c.stores {
 		if s != nil {
@@ -934,7 +960,40 @@ func runCase(c *caseT) string {
 	curMu.Lock()
 	cur = e
 	curMu.Unlock()
-	om, err := sarama.NewOffsetManagerFromClient(group, e.cl)
+	// a swallowed request (e2) is noticed through the read timeout: keep it short in those cases only
+	hasE2 := false
+	for _, o := range c.ops {
+		if o.rep.kind == "e2" {
+			hasE2 = true
+		}
+		for _, a := range o.atts {
+			if a.rep.kind == "e2" {
+				hasE2 = true
+			}
+			if c.real && a.lk != 1 {
+				return "bad-op" // the real client's lookup is not scripted
+			}
+		}
+		if c.real && o.kind == "lk" && o.lk != 1 {
+			return "bad-op"
+		}
+	}
+	if hasE2 {
+		conf.Net.ReadTimeout = 150 * time.Millisecond
+	}
+	var client sarama.Client = e.cl
+	var realClient sarama.Client
+	if c.real {
+		rc, err := sarama.NewClient([]string{mb.Addr()}, conf)
+		if err != nil {
+			return "bad-op client: " + err.Error()
+		}
+		realClient = rc
+		client = rc
+		defer func() { _ = rc.Close() }()
+	}
+	_ = realClient
+	om, err := sarama.NewOffsetManagerFromClient(e.group, client)
 	if err != nil {
 		return "bad-op"
 	}
@@ -995,6 +1054,9 @@ func emitCase(c *caseT, bucket string) {
 				if a.rep.kind != "r" {
 					run.Count("attempt-conn-error")
 				}
+				if a.rep.kind == "e2" {
+					run.Count("attempt-read-timeout")
+				}
 				if a.lk != 1 {
 					run.Count("attempt-lookup-fails")
 				}
@@ -1028,6 +1090,9 @@ func genOffset(r *hlib.Rand) int64 {
 }
 
 func genRep(r *hlib.Rand, n int) repT {
+	if r.Chance(1, 150) {
+		return repT{kind: "e2"}
+	}
 	switch r.Intn(12) {
 	case 0:
 		return repT{kind: "e0"}
@@ -1166,6 +1231,78 @@ func genSteered(r *hlib.Rand) *caseT {
 	return c
 }
 
+// connection failures with the coordinator staying where it is: the k-th OffsetCommit loses its connection
+// (dropped before / after the coordinator applied it, or swallowed until the read timeout), then more marks,
+// Commit() calls and Close(); every lookup succeeds and hands back the coordinator on the same id and address.
+func genConnFail(r *hlib.Rand, real bool) *caseT {
+	c := genHeader(r)
+	c.real = real
+	n := len(c.stores)
+	for i := 0; i < n; i++ {
+		c.ops = append(c.ops, opT{kind: "mg", p: i})
+	}
+	allOK := func() attT { return attT{lk: 1, rep: repT{kind: "r", vs: make([]int, n)}} }
+	base := int64(r.Range(1, 5))
+	mark := func() {
+		base += int64(r.Range(1, 3))
+		c.ops = append(c.ops, opT{kind: "mk", p: r.Intn(n), o: base, m: r.Intn(4)})
+	}
+	fail := func() attT {
+		k := []string{"e0", "e1", "e0", "e1", "e0", "e1", "e0", "e2"}[r.Intn(8)]
+		a := attT{lk: 1, rep: repT{kind: k}}
+		if r.Chance(1, 3) {
+			base += int64(r.Range(1, 3))
+			a.win = append(a.win, opT{kind: "mk", p: r.Intn(n), o: base, m: r.Intn(4)})
+		}
+		return a
+	}
+	for k := r.Range(0, 2); k > 0; k-- {
+		mark()
+		c.ops = append(c.ops, opT{kind: "cm", atts: []attT{allOK()}})
+	}
+	mark()
+	for k := r.Range(1, 2); k > 0; k-- {
+		c.ops = append(c.ops, opT{kind: "cm", atts: []attT{fail()}})
+	}
+	for k := r.Range(0, 3); k > 0; k-- {
+		mark()
+		if r.Chance(2, 3) {
+			c.ops = append(c.ops, opT{kind: "cm", atts: []attT{allOK()}})
+		}
+	}
+	if r.Chance(1, 4) {
+		c.ops = append(c.ops, opT{kind: "nx", p: r.Intn(n)})
+	}
+	cl := opT{kind: "cl"}
+	if c.auto {
+		for k := 0; k <= c.rmax; k++ {
+			if k < c.rmax && r.Chance(1, 3) {
+				cl.atts = append(cl.atts, fail())
+				cl.atts[len(cl.atts)-1].win = nil
+			} else {
+				cl.atts = append(cl.atts, allOK())
+			}
+		}
+	}
+	c.ops = append(c.ops, cl)
+	return c
+}
+
+// the random wire generator with the real sarama client (lookups cannot fail then)
+func genWireReal(r *hlib.Rand) *caseT {
+	c := genWire(r)
+	c.real = true
+	fix := func(as []attT) {
+		for i := range as {
+			as[i].lk = 1
+		}
+	}
+	for i := range c.ops {
+		fix(c.ops[i].atts)
+	}
+	return c
+}
+
 // random fine-grained sequence over several partitions
 func genFine(r *hlib.Rand) *caseT {
 	c := genHeader(r)
@@ -1241,7 +1378,7 @@ func stressCase(seed uint64, nParts, nG, nMarks int) {
 	conf.Consumer.Offsets.Retry.Max = 1
 	conf.Metadata.Retry.Max = 0
 	c := &caseT{auto: true, rmax: 1, ini: -1, stores: make([]*pair, nParts)}
-	e := &env{c: c, line: desc, conf: conf, single: -1, stress: true, stressSeen: make([][]pair, nParts),
+	e := &env{group: nextGroup(), c: c, line: desc, conf: conf, single: -1, stress: true, stressSeen: make([][]pair, nParts),
 		store: make([]*blockT, nParts), sh: make([]shadowT, nParts), poms: make([]sarama.PartitionOffsetManager, nParts)}
 	e.cl = &fakeClient{e: e}
 	curMu.Lock()
@@ -1255,7 +1392,7 @@ func stressCase(seed uint64, nParts, nG, nMarks int) {
 			_ = b.Close()
 		}
 	}()
-	om, err := sarama.NewOffsetManagerFromClient(group, e.cl)
+	om, err := sarama.NewOffsetManagerFromClient(e.group, e.cl)
 	if err != nil {
 		run.IOFail("stress-setup", desc, err.Error())
 		return
@@ -1374,6 +1511,12 @@ func main() {
 	}
 	for i := 0; i < n; i++ {
 		emitCase(genWire(rnd), "wire-random")
+	}
+	for i := 0; i < n/8+150; i++ {
+		emitCase(genConnFail(rnd, i%2 == 1), "wire-connection-failure")
+	}
+	for i := 0; i < n/8; i++ {
+		emitCase(genWireReal(rnd), "wire-random-real-client")
 	}
 	for i := 0; i < n/2; i++ {
 		emitCase(genFine(rnd), "fine-random")
